@@ -44,6 +44,7 @@ class PropSpec:
 
 def diff_sides(es, io, mo, ops=None):
     a = core.compared(io)
+    mo = [x.partition(" ##m ")[0] if x else x for x in mo]      # model-only annotations are not part of the answer
     mo0 = list(mo)
     if es.mask:
         a, mo = es.mask(a, mo, ops)
